@@ -2052,12 +2052,11 @@ fn boundary_cases() -> Vec<(String, usize, String, String)> {
 }
 
 /// The open finding (if any) whose documented shape covers a failing boundary case. (F-C05-9, -10, -11, -13 are
-/// repaired — d0940df, d6cca87, b710daa —: their families are must-pass now.)
+/// repaired — d0940df, d6cca87, b710daa —, and F-C05-15, -16 — 07b081f —: their families are must-pass now: the stated
+/// value or a compile error; values counted from the end of the temporary tuple are a violation.)
 fn boundary_finding(family: &str, _n: usize) -> Option<&'static str> {
     match family {
         "deferred-self-capture" => Some("F-C05-12"),
-        "multi-assign-temp-sparse" | "multi-assign-temp-chain" | "multi-assign-temp-fields" | "multi-assign-temp-result" => Some("F-C05-15"),
-        "match-multi-literals" | "match-multi-sparse" => Some("F-C05-16"),
         _ => None,
     }
 }
@@ -2499,7 +2498,7 @@ fn real_main() -> i32 {
         }
         let n = cx.known_counts.get(&id).copied().unwrap_or(0);
         // findings of the boundary sweep: their witnesses are the sweep's own cases (run above)
-        if matches!(id.as_str(), "F-C05-12" | "F-C05-15" | "F-C05-16") && n > 0 {
+        if id == "F-C05-12" && n > 0 {
             failing.push(format!("{} boundary-sweep cases of its families give a wrong value / spurious error", n));
         }
         if known && !failing.is_empty() {
